@@ -215,6 +215,29 @@ def faults(ctx, prop, mod):
     plan = [('full', 60, 25, 0.4, False), ('core', 60, 25, 0.4, False), ('twofa', 30, 20, 0.4, False)] if ctx.tier == 'quick' else \
            [('full', 300, 30, 0.5, True), ('core', 300, 30, 0.5, True), ('twofa', 150, 25, 0.5, True), ('oauth', 150, 20, 0.5, True)]
     combos, evals = set(), 0
+    # design level: the specification's fault model (every request of the base family also with each of its
+    # backend calls failing, both error handlers, both response modes) satisfies the C18 clauses on every transition
+    OP = {'Pids': '{"u1","o_pa_x","o_pa_y","o_pb_x","o_pb_y"}'}
+    mcq = [('f_login', {}), ('f_remember', {}), ('f_recover', {}), ('f_register', {}), ('f_twofa', {}), ('f_smsswitch', {}),
+           ('f_tfasetup', {}), ('f_otp', {'MaxIss': 7}), ('f_oauth', OP), ('f_expire', {})]
+    for fam, consts in mcq:
+        c = dict(consts, MaxDepth=3 if ctx.tier == 'quick' else 4)
+        if ctx.tier == 'thorough' and fam in ('f_register', 'f_smsswitch', 'f_expire', 'f_tfasetup', 'f_remember', 'f_oauth'):
+            c['MaxDepth'] = 5
+        mod.tlc_mc(ctx, fam, c, extra=['INVARIANT CallsBound'])
+    # TLC behaviours of the fault model replayed into the code
+    simf = [('f_login', {}), ('f_twofa', {}), ('f_recover', {})] if ctx.tier == 'quick' else mcq
+    scs = []
+    for fam, consts in simf:
+        scs += mod.tlc_sim(ctx, fam, consts, 40 if ctx.tier == 'quick' else 300, 8 if ctx.tier == 'quick' else 12)
+    for sc in scs:
+        if 'o_pa_x' in json.dumps(sc['cfg']) or 'oauth2' in sc['cfg']['modules']:
+            sc['pids'] = ['u1', 'o_pa_x', 'o_pa_y', 'o_pb_x', 'o_pb_y']
+    tf = mod.exec_scenarios(ctx, scs, 'faultsim')
+    ents, lines = mod.validate(ctx, tf)
+    ctx.cov['replayed_tlc_fault_behaviours'] = len(scs)
+    dev = sum(1 for e in ents if e['kind'] == 'faultmodel')
+    mod.judge(ctx, prop, ents, lines, 'faults:tlc')
     from scripts import SCRIPTS
     sf = os.path.join(ctx.tmp, 'fault-scripts.ndjson')
     # every script under both error handlers and with / without the lock module (lock saves the
@@ -243,6 +266,7 @@ def faults(ctx, prop, mod):
             cmd.append('-exhaustive')
         mod.run(cmd, 3000)
         ents, lines = mod.validate(ctx, tf)
+        dev += sum(1 for e in ents if e['kind'] == 'faultmodel')
         for l in lines:
             if l['kind'] == 'ev' and l['e'].get('fault', 0) > 0 and l['resp'].get('faultHit'):
                 evals += 1
@@ -256,6 +280,7 @@ def faults(ctx, prop, mod):
         if ctx.violations:
             break
     ctx.cov['evaluations'] = evals
+    ctx.cov['fault_model_deviations_advisory'] = dev
     ctx.cov['distinct_nontrivial'] = len(combos)
     ctx.cov['rule'] = ('random scenarios; at a request step the world is forked, the request is run fault-free to learn its backend calls, '
                        'then re-run with a failure injected at call k (quick: 1-2 seeded k; thorough: every k and error kind); a case is '
